@@ -21,9 +21,12 @@ ASSUMPTIONS = ['multi-column input is processed column by column (checked: each 
                'outside the model (the code evaluates any(~mask[a:b]): ~1 = -2 is truthy, so a 0/1 integer mask vetoes every cycle; '
                'a multi-column mask makes any() raise ValueError)']
 RULE = ('exhaustive: every phase sequence of length <= L over the 5-value alphabet %s x return_good in {0,1} '
-        '(L=6 quick, 8 thorough); random: synthetic wrapped phases with variable, noisy, occasionally reversing '
-        'frequency, 1-3 columns, 4 phase_step values. A case is non-trivial when its series contains at least one wrap; '
-        'distinct by content hash.' % (_cyc.ALPHABET,))
+        '(L=6 quick, 8 thorough) at the default phase_step, and every sequence of length <= 5 (6) at phase_step = 0 / 0.0 (every change '
+        'of phase is a wrap) and 7.0 (nothing is); random: synthetic wrapped phases with variable, noisy, occasionally reversing '
+        'frequency (sampled-and-held for small thresholds), 1-3 columns, phase_step in {default, pi, 4, pi/2, 1.9pi, 0, 0.0, 0.3, -1, 2pi, 7}, '
+        'called by keyword, positionally and through the get_cycle_inds alias, on writable arrays; 10 %% unwrapped phases above 2pi '
+        '(outside the quantifier: compared with the model, verdicts mechanism-level) and a second call on a read-only copy '
+        '(mechanism-level). A case is non-trivial when its series contains at least one wrap; distinct by content hash.' % (_cyc.ALPHABET,))
 
 
 class Exhaustive(Stream):
@@ -41,19 +44,28 @@ class Exhaustive(Stream):
             for prefix in itertools.product(range(5), repeat=npre):
                 for good in (0, 1):
                     yield {'len': length, 'prefix': list(prefix), 'good': good}
+        # "all phase_step values": the lower end of the range, phase_step = 0 (every change of phase is a wrap; the alphabet
+        # sequences repeat values, so some neighbours are NOT wraps), as int and as float, and a threshold nothing exceeds
+        for length in range(1, (6 if tier == 'thorough' else 5) + 1):
+            for p in range(5):
+                for good in (0, 1):
+                    for st in (0, 0.0, 7.0):
+                        if st == 7.0 and (good or length % 2):
+                            continue
+                        yield {'len': length, 'prefix': [p], 'good': good, 'step': st, 'call': 'pos' if (length + p) % 2 else 'kw'}
 
     def impl(self, case):
         outs = []
         for seq in _cyc.enum_block(case['len'], case['prefix']):
             try:
-                cv = _cyc.call_cv(seq, case['good'], None, None, None)
+                cv = _cyc.call_cv(seq, case['good'], None, case.get('step'), None, call=case.get('call', 'kw'))
                 outs.append([int(v) for v in cv[:, 0]])
             except Exception as e:  # noqa
                 outs.append({'error': type(e).__name__})
         return outs
 
     def ops(self, case, out):
-        return [_cyc.cv_op(seq, _cyc.DEFAULT_STEP, case['good'], _cyc.DEFAULT_EDGE, None)
+        return [_cyc.cv_op(seq, _cyc.step_of(case), case['good'], _cyc.DEFAULT_EDGE, None)
                 for seq in _cyc.enum_block(case['len'], case['prefix'])]
 
     def compare(self, case, out, results):
@@ -63,33 +75,38 @@ class Exhaustive(Stream):
             if isinstance(o, dict):
                 return 'implementation raised %s on %s (model: %s)' % (o['error'], seq, r.raw)
             if not r.ok or [int(v) for v in (r.vecs[0] or [])] != o:
-                return 'phase=%s good=%d impl=%s model=%s' % (seq, case['good'], o, r.raw)
+                return 'phase=%s good=%d phase_step=%r impl=%s model=%s' % (seq, case['good'], case.get('step'), o, r.raw)
         return None
 
     def holds(self, case, out):
         if isinstance(out, ImplError):
-            return [Failure('raises:' + out['error'], out['msg'])]
+            # the whole block failed (time-out of 5^k tiny calls / harness fault): reported by compare, not a C12 verdict
+            return [Failure('raises:' + out['error'], out['msg'], literal=False)]
+        step = _cyc.step_of(case)
         fs = {}
-        for seq, o in zip(_cyc.enum_block(case['len'], case['prefix']), out):
-            if isinstance(o, dict):
-                last_wrap = len(seq) >= 2 and abs(seq[-1] - seq[-2]) > _cyc.DEFAULT_STEP
-                k = 'raises:%s%s' % (o['error'], ':wrap-on-last-sample' if last_wrap else '')
-                fs.setdefault(k, Failure(k, 'phase=%s good=%d' % (seq, case['good'])))
-                continue
-            for f in _cyc.check_partition(seq, o, _cyc.DEFAULT_STEP, case['good'], False):
-                f.detail = 'phase=%s good=%d labels=%s: %s' % (seq, case['good'], o, f.detail)
-                fs.setdefault(f.kind, f)
+        try:
+            for seq, o in zip(_cyc.enum_block(case['len'], case['prefix']), out):
+                if isinstance(o, dict):
+                    last_wrap = len(seq) >= 2 and abs(seq[-1] - seq[-2]) > step
+                    k = 'raises:%s%s' % (o['error'], ':wrap-on-last-sample' if last_wrap else '')
+                    fs.setdefault(k, Failure(k, 'phase=%s good=%d phase_step=%r' % (seq, case['good'], case.get('step'))))
+                    continue
+                for f in _cyc.check_partition(seq, o, step, case['good'], False):
+                    f.detail = 'phase=%s good=%d phase_step=%r labels=%s: %s' % (seq, case['good'], case.get('step'), o, f.detail)
+                    fs.setdefault(f.kind, f)
+        except Exception as e:  # noqa  (a fault of the check itself is not a property failure)
+            return [Failure('instance-check-crashed', repr(e), literal=False)]
         return list(fs.values())
 
     def tags(self, case, out):
-        t = ['len=%d' % case['len'], 'good=%d' % case['good']]
+        t = ['len=%d' % case['len'], 'good=%d' % case['good'], 'phase_step=%r' % case.get('step', 'default'), 'call=' + case.get('call', 'kw')]
         if not isinstance(out, ImplError):
-            nw = sum(1 for seq in _cyc.enum_block(case['len'], case['prefix']) if _cyc.wraps_of(seq, _cyc.DEFAULT_STEP))
+            nw = sum(1 for seq in _cyc.enum_block(case['len'], case['prefix']) if _cyc.wraps_of(seq, _cyc.step_of(case)))
             t.append('blocks-with-wrapped-sequences' if nw else 'blocks-without-wrap')
         return t
 
     def nontrivial(self, case, out):
-        return any(_cyc.wraps_of(seq, _cyc.DEFAULT_STEP) for seq in _cyc.enum_block(case['len'], case['prefix']))
+        return any(_cyc.wraps_of(seq, _cyc.step_of(case)) for seq in _cyc.enum_block(case['len'], case['prefix']))
 
     def shrink(self, case):
         return []
@@ -110,23 +127,38 @@ class Single(Stream):
             {'phase': [[3.0]], 'good': 0, 'step': None},
             {'phase': [[0.1, 3.1, 6.2, 0.1, 3.1, 6.2, 0.1, 3.0, 6.2]], 'good': 1, 'step': None},
             {'phase': [[a[0], a[2], a[4], a[0], a[2], a[4]], [a[2], a[4], a[0], a[2], a[4], a[0]]], 'good': 0, 'step': None},
+            # round 3, C12 patch 1 (`phase_step = phase_step or DEFAULT`): an explicit phase_step of 0 is a threshold, not "unset"
+            {'phase': [[0.0, 1.57]], 'good': 0, 'step': 0},
+            {'phase': [[0.5, 0.5, 1.0, 1.0, 1.0, 2.5, 2.5, 6.0, 0.2, 0.2]], 'good': 0, 'step': 0.0},
+            {'phase': [[0.5, 0.5, 1.0, 1.0, 1.0, 2.5, 2.5, 6.0, 0.2, 0.2]], 'good': 0, 'step': 0, 'call': 'posall'},
+            {'phase': [[0.1, 3.1, 6.2, 0.1, 3.1, 6.2]], 'good': 0, 'step': -1.0},
+            {'phase': [[0.1, 3.1, 6.2, 0.1, 3.1, 6.2]], 'good': 0, 'step': 7.0, 'call': 'pos'},
         ]
+
+    STEPS = [None, None, np.pi, 4.0, 0.5 * np.pi, 1.9 * np.pi, 0, 0.0, 0.3, -1.0, 2 * np.pi, 7.0]
 
     def generate(self, rng, tier):
         n_cases = 1500 if tier == 'thorough' else 150
-        steps = [None, np.pi, 4.0, 0.5 * np.pi, 1.9 * np.pi]
         for i in range(n_cases):
             ncol = rng.choice([1, 1, 2, 3])
             n = rng.choice([2, 3, 5, 17, 64, 200, 500]) if rng.random() < 0.7 else rng.randint(2, 900)
             cols = [_cyc.synth_phase(rng, n, reversing=rng.random() < 0.7) for _ in range(ncol)]
+            step = rng.choice(self.STEPS)
+            if step is not None and step <= 0.3 and rng.random() < 0.7:
+                # a sampled-and-held phase: stretches of equal neighbours (the only non-wraps when phase_step is 0)
+                cols = [[c[j - j % rng.choice([2, 3, 5])] if rng.random() < 0.8 else c[j] for j in range(n)] for c in cols]
             over = rng.random() < 0.1
-            if over:   # unwrapped phase above 2pi: the implementation must wrap it first
+            if over:   # unwrapped phase above 2pi (outside the quantifier "phase sequences in [0,2pi)": compared, not judged literally)
                 cols = [list(np.unwrap(np.array(c))) for c in cols]
-            yield {'phase': cols, 'good': rng.choice([0, 1]), 'step': rng.choice(steps)}
+            yield {'phase': cols, 'good': rng.choice([0, 1]), 'step': step, 'call': rng.choice(['kw', 'kw', 'pos', 'posall', 'alias'])}
 
     def _cols(self, case):
         cols = [np.array(c, dtype=float) for c in case['phase']]
         return cols
+
+    def _over_range(self, case):
+        a = np.array(case['phase'], dtype=float)
+        return bool(a.max() > 2 * np.pi or a.min() < 0)
 
     def _wrapped_cols(self, case):
         import emd
@@ -139,41 +171,65 @@ class Single(Stream):
         arr = np.array(case['phase'], dtype=float).T          # [n x ncol]
         if arr.shape[1] == 1 and case.get('vector', True):
             arr = arr[:, 0]
-        cv = _cyc.call_cv(arr, case['good'], None, case.get('step'), case.get('edge'))
-        return [[int(v) for v in cv[:, i]] for i in range(cv.shape[1])]
+        rep = {}
+        cv = _cyc.call_cv(arr, case['good'], None, case.get('step'), case.get('edge'), call=case.get('call', 'kw'), report=rep)
+        out = {'cols': [[int(v) for v in cv[:, i]] for i in range(cv.shape[1])], 'modified': rep.get('modified', False)}
+        # the same phase held in a read-only array (np.load(mmap_mode='r'), broadcast views ...): mechanism-level only
+        try:
+            cv2 = _cyc.call_cv(arr, case['good'], None, case.get('step'), case.get('edge'), call=case.get('call', 'kw'), readonly=True)
+            out['readonly'] = 'same' if np.array_equal(cv2, cv) else 'differs'
+        except Exception as e:  # noqa
+            out['readonly'] = 'raises:' + type(e).__name__
+        return out
 
     def ops(self, case, out):
-        step = case.get('step') or _cyc.DEFAULT_STEP
-        edge = case.get('edge') or _cyc.DEFAULT_EDGE
-        return [_cyc.cv_op(c, step, case['good'], edge, None) for c in self._wrapped_cols(case)]
+        return [_cyc.cv_op(c, _cyc.step_of(case), case['good'], _cyc.edge_of(case), None) for c in self._wrapped_cols(case)]
+
+    def _near_tie(self, case):
+        step = _cyc.step_of(case)
+        # |x - y| > 0 is decided exactly by float subtraction (x - y == 0 iff x == y): no tie at phase_step = 0
+        return step != 0 and min(_cyc.tie_margin(c, step) for c in self._wrapped_cols(case)) < 1e-9
 
     def compare(self, case, out, results):
-        step = case.get('step') or _cyc.DEFAULT_STEP
-        cols = self._wrapped_cols(case)
-        if min(_cyc.tie_margin(c, step) for c in cols) < 1e-9:
+        if self._near_tie(case):
             return 'skip:near-tie'
         if isinstance(out, ImplError):
             return 'implementation raised %s; model: %s' % (out['error'], [r.raw[:80] for r in results])
-        for i, (o, r) in enumerate(zip(out, results)):
+        for i, (o, r) in enumerate(zip(out['cols'], results)):
             if not r.ok or [int(v) for v in (r.vecs[0] or [])] != o:
                 return 'column %d: impl=%s model=%s' % (i, o[:40], r.raw[:200])
         return None
 
     def holds(self, case, out):
-        step = case.get('step') or _cyc.DEFAULT_STEP
+        step = _cyc.step_of(case)
         cols = self._wrapped_cols(case)
+        # phases above 2pi are outside "all phase sequences in [0,2pi)" (the code happens to wrap them first; the oracle wraps
+        # them the same way): every verdict on them is mechanism-level
+        lit = not self._over_range(case)
         if isinstance(out, ImplError):
             last_wrap = any(len(c) >= 2 and abs(c[-1] - c[-2]) > step for c in cols)
-            return [Failure('raises:%s%s' % (out['error'], ':wrap-on-last-sample' if last_wrap else ''), out['msg'])]
+            return [Failure('raises:%s%s' % (out['error'], ':wrap-on-last-sample' if last_wrap else ''), out['msg'],
+                            literal=lit and out['error'] != 'Timeout')]
+        if self._near_tie(case):
+            return []
         fs = {}
-        for c, o in zip(cols, out):
+        for c, o in zip(cols, out['cols']):
             for f in _cyc.check_partition(c, o, step, case['good'], False):
+                f.literal = lit
+                f.detail = 'phase_step=%r call=%s: %s' % (case.get('step'), case.get('call', 'kw'), f.detail)
                 fs.setdefault(f.kind, f)
+        if out.get('readonly', 'same') != 'same':
+            fs['ro'] = Failure('read-only-phase:' + out['readonly'], 'the same call on the same values held in a non-writeable array',
+                               literal=False)
+        if out.get('modified'):
+            fs['mod'] = Failure('input-modified', "the caller's phase array no longer holds its values after the call", literal=False)
         return list(fs.values())
 
     def tags(self, case, out):
-        step = case.get('step') or _cyc.DEFAULT_STEP
-        t = ['cols=%d' % len(case['phase']), 'good=%d' % case['good'], 'step=%s' % ('default' if not case.get('step') else round(case['step'], 3))]
+        step = _cyc.step_of(case)
+        st = case.get('step')
+        t = ['cols=%d' % len(case['phase']), 'good=%d' % case['good'], 'call=' + case.get('call', 'kw'),
+             'step=%s' % ('default' if st is None else repr(st) if st in (0, 0.0) else round(st, 3))]
         cols = self._wrapped_cols(case)
         nw = sum(len(_cyc.wraps_of(c, step)) for c in cols)
         t.append('wraps=0' if nw == 0 else 'wraps=1-3' if nw <= 3 else 'wraps>3')
@@ -181,13 +237,12 @@ class Single(Stream):
             t.append('wrap-on-last-sample')
         if any(len(c) >= 2 and abs(c[1] - c[0]) > step for c in cols):
             t.append('wrap-on-second-sample')
-        if np.array(case['phase']).max() > 2 * np.pi:
-            t.append('needs-wrapping')
+        if self._over_range(case):
+            t.append('outside-domain:needs-wrapping')
         return t
 
     def nontrivial(self, case, out):
-        step = case.get('step') or _cyc.DEFAULT_STEP
-        return any(_cyc.wraps_of(c, step) for c in self._wrapped_cols(case))
+        return any(_cyc.wraps_of(c, _cyc.step_of(case)) for c in self._wrapped_cols(case))
 
     def shrink(self, case):
         cols = case['phase']
